@@ -10,7 +10,9 @@ base model, the property predicate D is evaluated on the REAL population:
   neighbour   ACT_SMT.Previous_Statement_ID / V_PAR.Next_Value_ID / ACT_LNK.Next_Link_ID (the persisted
               referential values) designate the previous statement / next parameter / next navigation step of the
               source lists of `oal.parse(text)`, null at the ends
-  position    the ACT_SMT instances carry exactly the (line, start column, end column) of the statement nodes
+  position    the ACT_SMT instances carry exactly the (line, start column, end column) of the statement nodes, and
+              (elif / else clauses aside) the line, first and last column that `statement_spans` reads off the TEXT
+              without the repository's lexer / parser (the `;` ends a statement and is not part of it)
   block       every V_VAR is related over R823 to the ACT_BLK holding the innermost statement that declares it
   type        the S_DT over R820 of a V_VAL whose expression the property lists (comparison / and / or / not /
               empty / not_empty -> boolean; cardinality -> integer; literals and enumerators -> their type;
@@ -42,6 +44,15 @@ RULE = P5.RULE.replace('Non-trivial: >= 2 statements and >= 12 tokens regenerate
                        'type the model already has (core types, inst_ref<Object>, inst<Event>, enumerations, user-defined and '
                        'instance-reference types; created after them), types being compared by instance; a focused family of bodies '
                        'that mention self inside and after nested blocks (operation, derived attribute, state action); '
+                       'a focused family of bodies (every kind of home) whose statements END WITH A NUMERIC LITERAL - every shape of '
+                       'a real literal (digits.digits, .digits, digits., with exponent, exponent without point) bare and with each '
+                       'size suffix F f L l, integer literals - as whole right-hand side, right operand of an arithmetic operation / '
+                       'comparison, returned value, next to statements where the literal is followed by more tokens, at top level '
+                       'and in if / elif / else / while blocks, sometimes with layout or a comment before the `;`; '
+                       'the first AND LAST column of every statement (elif / else clauses aside) are read off the TEXT by a '
+                       'statement scanner that uses no parser / lexer of the repository (last column = last character of the last '
+                       'token before the statement\'s `;`, suffix letters of literals included), in addition to the comparison with '
+                       'the parsed nodes; '
                        'Non-trivial: >= 2 statements, >= 3 value instances and >= 1 variable created')
 EXHAUSTIVE = {'quick': False, 'thorough': False}
 ASSUMPTIONS = P5.ASSUMPTIONS + [
@@ -50,6 +61,7 @@ ASSUMPTIONS = P5.ASSUMPTIONS + [
     'results, selected, self and constants are compared with the Lean model only (correspondence), not judged',
 ]
 TRUSTED_EXTRA = ['harness/gen_oal_action.py (program generator, base model)',
+                 'harness/prop_C06.py statement_spans (text scanner for the first / last column of statements)',
                  'harness/prop_C06.py type_of (independent typing oracle) and the population walkers',
                  'xtuml.consistency_check.check_link_integrity / check_uniqueness_constraint (C11 is about them)']
 CHUNK = 400
@@ -255,8 +267,100 @@ def generate(ctx):
             r = rng.fork(home, j)
             yield _dimensions(ctx.rng.fork('dims', 'selfscope', home, j),
                               P5._case(r, 0, home, r.randint(3, 7), set(['self_attr', 'if', 'while', 'assign', 'attr'])))
+    for c in _literal_ended(ctx, ctx.pick(6, 100)):
+        yield c
     for i, c in enumerate(P5.generate(ctx, n_quick=1500, multi=False, bare=True)):
         yield _dimensions(ctx.rng.fork('dims', i), c)
+
+
+# ---- statements whose LAST (or last-but-one) token is a numeric literal: every shape of a real literal the lexer has
+# ---- (digits.digits, .digits, digits., digits.[eE]exponent, digits[eE]exponent with / without sign), each bare and with each
+# ---- of the size suffixes F f L l, and integer literals - as the whole right-hand side, as the right operand of an arithmetic
+# ---- operation or of a comparison, as a returned value; next to them statements where the same literal is followed by more
+# ---- tokens of the statement (left operand, inside parentheses); at the top of the body and inside if / elif / else / while
+# ---- blocks; sometimes with layout / a comment between the literal and the `;`.  The statement's text ends with the
+# ---- literal's last character (its suffix letter included).
+REAL_SHAPES = ['0.5', '1.0', '3.14', '10.25', '.75', '2.', '12.', '2.e3', '4.E-2', '7.e+1', '1e5', '25E-1', '3e+2', '7E0']
+REAL_SUFFIXES = ['', '', 'F', 'f', 'L', 'l']
+GAPS = [''] * 9 + [' ', '  ', ' /* c */', '\n', '\t']
+
+
+def _literal_ended(ctx, per_home):
+    rng = ctx.rng.fork('literal-ended')
+    for home in G.HOMES:
+        for j in range(per_home):
+            r = rng.fork(home, j)
+            yield _dimensions(ctx.rng.fork('dims', 'literal-ended', home, j), _literal_ended_case(r, home))
+
+
+def _literal_ended_case(r, home):
+    nvar = [0]
+    reals = []
+    count = [0]
+
+    def real():
+        return r.choice(REAL_SHAPES) + r.choice(REAL_SUFFIXES)
+
+    def fresh(prefix):
+        nvar[0] += 1
+        return '%s%d' % (prefix, nvar[0])
+
+    def simple():
+        k = r.choice(['whole', 'whole', 'right', 'left', 'cmp', 'cmp_paren', 'int', 'neg']) if reals else 'whole'
+        if k == 'whole':
+            x = fresh('x')
+            text = '%s = %s' % (x, real())
+        elif k == 'right':
+            x = fresh('x')
+            text = '%s = %s %s %s' % (x, r.choice(reals), r.choice('+-*/'), real())
+        elif k == 'left':
+            x = fresh('x')
+            text = '%s = %s %s %s' % (x, real(), r.choice('+-*/'), r.choice(reals))
+        elif k == 'cmp':
+            x = None
+            text = '%s = %s %s %s' % (fresh('b'), r.choice(reals), r.choice(['<', '<=', '==', '!=', '>=', '>']), real())
+        elif k == 'cmp_paren':
+            x = None
+            text = '%s = (%s %s %s)' % (fresh('b'), r.choice(reals), r.choice(['<', '>', '==']), real())
+        elif k == 'int':
+            x = None
+            text = '%s = %s' % (fresh('i'), r.choice(['0', '7', '42', '65535']))
+        else:
+            x = fresh('x')
+            text = '%s = -%s' % (x, real())
+        count[0] += 1
+        return x, [['s', text + r.choice(GAPS), 'assign']]
+
+    def stmts(n, depth):
+        """the variables a nested block declares end with it: only the enclosing blocks' variables are read"""
+        out = []
+        mark = len(reals)
+        for _ in range(n):
+            k = r.random()
+            if depth < 2 and reals and k < 0.25:
+                cond = '%s %s %s' % (r.choice(reals), r.choice(['<', '>', '!=']), real())
+                if r.random() < 0.5:
+                    elifs = [['%s > %s' % (r.choice(reals), real()), stmts(r.randint(1, 2), depth + 1)]
+                             for _ in range(r.choice([0, 0, 1, 2]))]
+                    els = stmts(r.randint(1, 2), depth + 1) if r.random() < 0.5 else None
+                    out.append(['if', cond, stmts(r.randint(1, 2), depth + 1), elifs, els])
+                else:
+                    out.append(['while', cond, stmts(r.randint(1, 2), depth + 1)])
+            else:
+                x, st = simple()
+                out.extend(st)
+                if x is not None:
+                    reals.append(x)
+        if depth:
+            del reals[mark:]
+        return out
+
+    prog = stmts(r.randint(2, 6), 0)
+    if r.random() < 0.3:
+        prog.append(['s', 'return %s' % real() + r.choice(GAPS), 'plain'])
+        count[0] += 1
+    return {'home': home, 'prog': prog, 'style': r.randint(0, 2 ** 30), 'vary': r.random() < 0.7,
+            'via_model': r.random() < 0.15, 'events': False, 'gstats': {'statements_around_a_numeric_literal': count[0]}}
 
 
 # ---- two dimensions of the quantifier that the C05 generator does not vary (they are fields of the case, so a stored
@@ -385,13 +489,23 @@ class _GiveUp(Exception):
 
 
 def statement_starts(text):
-    """(line, column) of the first character of every statement (not of the elif / else clauses: they are parts of their
+    """(line, column) of the first character of every statement, see statement_spans"""
+    spans = statement_spans(text)
+    return None if spans is None else [(l, c) for l, c, _ in spans]
+
+
+def statement_spans(text):
+    """(line, column of the first character, column of the LAST character) of every statement, the last column counted in
+    the line that holds the last character (not of the elif / else clauses: they are parts of their
     if statement; the parser of the repository begins an elif clause at its condition, an else clause at `else`, which is
     compared with the parsed tree only), read off the TEXT alone
     (no parser of the repository): a scanner for the statement skeleton of the generated bodies - a statement begins at
     the first token after the `;` of the statement before it, after the head of the block that holds it (`if (..) [then]`,
     `elif (..) [then]`, `else`, `while (..) [loop]`, `for each x in s [loop]`) or at the beginning of the body; a simple
-    statement extends to its `;`; a lone `;` is an empty statement (no statement).  Comments, string literals and ticked
+    statement extends to its `;`; a lone `;` is an empty statement (no statement).  The `;` ends the statement and is no part
+    of its text, nor are the layout and the comments in front of the `;`: the last character of a statement is the last
+    character of the last token before its `;` (the last letter / digit / SIZE SUFFIX of a literal, the closing quote of a
+    string, a closing parenthesis, the `if` / `while` / `for` of `end if` ...).  Comments, string literals and ticked
     phrases are single tokens.  None when the text is not of that shape (never for a generated body)."""
     with_empties('', 0)         # compiles _SEMI
     toks = [(mt.start(), mt.group()) for mt in _SEMI.finditer(text)
@@ -420,7 +534,16 @@ def statement_starts(text):
     def mark(clause=False):
         a = toks[pos[0]][0]
         if not clause:
-            starts.append((text.count('\n', 0, a) + 1, a - text.rfind('\n', 0, a)))
+            starts.append([text.count('\n', 0, a) + 1, a - text.rfind('\n', 0, a), None])
+            return starts[-1]
+
+    def close(span):
+        """the token before the `;` just taken is the statement's last one"""
+        if pos[0] < 2:
+            raise _GiveUp()
+        a, tok = toks[pos[0] - 2]
+        b = a + len(tok) - 1                # offset of the statement's last character
+        span[2] = b - text.rfind('\n', 0, b)
 
     def stmts(stop):
         while pos[0] < n:
@@ -430,7 +553,7 @@ def statement_starts(text):
             elif t in stop:
                 return
             elif t in ('if', 'while'):
-                mark()
+                span = mark()
                 pos[0] += 1
                 parens()
                 if low() == ('then' if t == 'if' else 'loop'):
@@ -450,8 +573,9 @@ def statement_starts(text):
                 take('end')
                 take(t)
                 take(';')
+                close(span)
             elif t == 'for':
-                mark()
+                span = mark()
                 take('for')
                 take('each')
                 pos[0] += 1
@@ -463,31 +587,52 @@ def statement_starts(text):
                 take('end')
                 take('for')
                 take(';')
+                close(span)
             else:
-                mark()
+                span = mark()
                 while low() != ';':
                     if pos[0] >= n:
                         raise _GiveUp()
                     pos[0] += 1
                 pos[0] += 1
+                close(span)
     try:
         stmts(())
     except (_GiveUp, IndexError):
         return None
-    return starts
+    if any(sp[2] is None for sp in starts):
+        return None
+    return [tuple(sp) for sp in starts]
 
 
 def _start_check(text, smts, fail, stats, where=''):
-    want = statement_starts(text)
+    want = statement_spans(text)
     if want is None:
         stats['statement_scanner_gave_up'] = stats.get('statement_scanner_gave_up', 0) + 1
         return
     one = _rig.xtuml.navigate_one
-    got = sorted((s.LineNumber, s.StartPosition) for s in smts if one(s).ACT_EL[603]() is None and one(s).ACT_E[603]() is None)
-    if got != sorted(want):
-        odd = sorted(set(got) ^ set(want))
+    key = lambda t: tuple(-1 if x is None else x for x in t)
+    own = [s for s in smts if one(s).ACT_EL[603]() is None and one(s).ACT_E[603]() is None]
+    got = sorted(((s.LineNumber, s.StartPosition) for s in own), key=key)
+    if got != sorted((l, c) for l, c, _ in want):
+        odd = sorted(set(got) ^ set((l, c) for l, c, _ in want), key=key)
         fail('statement-start', '%sthe ACT_SMT instances (elif / else clauses aside) start at (line, column) %s; the statements '
-             'of the text begin at %s (where they differ: %s)' % (where, got, sorted(want), odd))
+             'of the text begin at %s (where they differ: %s)' % (where, got, sorted((l, c) for l, c, _ in want), odd))
+        return
+    # the LAST column, read off the text as well (not off the parser's token end offsets): the column, in its own line, of
+    # the last character of the last token before the statement's `;`
+    stats['statement_ends_read_off_the_text'] = stats.get('statement_ends_read_off_the_text', 0) + len(want)
+    got3 = sorted(((s.LineNumber, s.StartPosition, getattr(s, 'EndPosition', None)) for s in own), key=key)
+    if got3 != sorted(want):
+        odd = sorted(set(got3) ^ set(want), key=key)
+        lines = text.split('\n')
+        shown = []
+        for l, c, e in sorted(set(want) - set(got3))[:3]:
+            shown.append('line %d from column %d: %r' % (l, c, lines[l - 1][c - 1:] if 0 < l <= len(lines) else '?'))
+        fail('statement-end', '%sthe ACT_SMT instances (elif / else clauses aside) carry (line, first column, last column) %s; '
+             'the statements of the text lie at %s - the last column is that of the last character of the statement\'s text, '
+             'the `;` that ends it not counted (where they differ: %s; the text there: %s)'
+             % (where, got3, sorted(want), odd, '; '.join(shown)))
 
 
 def _prog_lists(prog, out):
